@@ -106,4 +106,13 @@ theorem ptrMono_empty (lt : Nat → Nat → Bool) : PtrMono lt PMap.empty PMap.e
 theorem nbrMono_empty (lt : Nat → Nat → Bool) : NbrMono lt SMap.empty SMap.empty := by
   constructor <;> intro x a h <;> cases h
 
+/-- shrinking the borders cannot create an overlap -/
+theorem overlap_border_mono {u v : Rect} {bx b ex ey : Rat} (hx : 0 ≤ ex) (hy : 0 ≤ ey)
+    (h : Overlap (bordered u bx b) (bordered v bx b)) :
+    Overlap (bordered u (bx + ex) (b + ey)) (bordered v (bx + ex) (b + ey)) := by
+  obtain ⟨x, y, h1, h2, h3, h4, h5, h6, h7, h8⟩ := h
+  simp only [bordered, Rect.getMinX, Rect.getMaxX, Rect.getMinY, Rect.getMaxY] at *
+  exact ⟨x, y, by linarith, by linarith, by linarith, by linarith, by linarith, by linarith,
+    by linarith, by linarith⟩
+
 end AdaptaVerif.Lemmas.Scanline
